@@ -88,3 +88,49 @@ theorem next_prefix (r' r : Reader) (h : InStep r' r) :
             rw [List.drop_append_of_le_length hle]
 
 end Sei
+
+namespace Sei
+open Bits
+
+set_option maxRecDepth 8000 in
+theorem readU32_ff (name : String) (fin : IoKind) (k : Nat) (tl : List UInt8) (acc : Nat) (hacc : acc < 4294967296) :
+    readU32 name fin (List.replicate k 0xFF ++ tl) acc =
+      if acc + 255 * k ≥ 4294967296 then .error (.io name .invalidData) else readU32 name fin tl (acc + 255 * k) := by
+  induction k generalizing acc with
+  | zero =>
+    have h0 : ¬ acc + 255 * 0 ≥ 4294967296 := by omega
+    rw [if_neg h0]
+    show readU32 name fin ([] ++ tl) acc = readU32 name fin tl (acc + 255 * 0)
+    rw [List.nil_append, Nat.mul_zero, Nat.add_zero]
+  | succ k ih =>
+    rw [List.replicate_succ, List.cons_append, readU32]
+    have hff : (0xFF : UInt8).toNat = 255 := by decide
+    simp only [hff]
+    by_cases hov : acc + 255 ≥ 4294967296
+    · have h1 : acc + 255 * (k + 1) ≥ 4294967296 := by omega
+      rw [if_pos hov, if_pos h1]
+    · rw [if_neg hov]
+      have hne : ¬ ((0xFF : UInt8) ≠ 0xFF) := by simp
+      rw [if_neg hne, ih (acc + 255) (by omega)]
+      have he : acc + 255 + 255 * k = acc + 255 * (k + 1) := by omega
+      rw [he]
+
+set_option maxRecDepth 8000 in
+/-- **C10 (overflow)**: a type or size whose 0xFF-extension coding sums to 2³² or more is an error — never a wrapped
+value — whatever follows -/
+theorem readU32_too_large (name : String) (fin : IoKind) (n : Nat) (hn : n ≥ 4294967296) (rest : List UInt8) :
+    readU32 name fin (encU32 n ++ rest) 0 = .error (.io name .invalidData) := by
+  unfold encU32
+  rw [List.append_assoc, readU32_ff name fin (n / 255) _ 0 (by omega)]
+  by_cases hbig : 0 + 255 * (n / 255) ≥ 4294967296
+  · rw [if_pos hbig]
+  · rw [if_neg hbig]
+    show readU32 name fin (UInt8.ofNat (n % 255) :: rest) (0 + 255 * (n / 255)) = _
+    rw [readU32]
+    have hto : (UInt8.ofNat (n % 255)).toNat = n % 255 := by
+      rw [UInt8.toNat_ofNat']; omega
+    simp only [hto]
+    have h2 : 0 + 255 * (n / 255) + n % 255 ≥ 4294967296 := by omega
+    rw [if_pos h2]
+
+end Sei
